@@ -83,6 +83,9 @@ def g_prog(rng):
         f["stop_after"] = f["ref"] and rng.random() < 0.5
         if rng.random() < 0.3:
             f["swap"] = True  # keyword arguments of the action / event written in the other order
+        if rng.random() < 0.25:
+            add_path(rng, f, payload, False)
+            f["stop_after"] = f["ref"] and f["stop_after"]
         flows.append(f)
     if nloops == 1 and rng.random() < 0.08:
         # every flow declares `@loop("NEW")`: each instance gets an interaction loop of its own, nobody competes
@@ -92,6 +95,81 @@ def g_prog(rng):
             "followup": any(f["stop_after"] for f in flows)}
     if rng.random() < 0.35:
         case["args2"] = True  # every action / event of the pool carries a second keyword argument
+    return case
+
+
+WAITS = ["plain", "or", "or", "and", "when", "await_or", "await_and"]
+PRES = ["assign", "sendint", "starthelper", "awaitfin", "stopint"]
+
+
+def add_path(rng, f, payload, heavy):
+    """Phase 5: HOW a `direct` flow reaches its action.  `wait` = the construct that waits for the event (plain match, or-group /
+    and-group of matches, `when … or when …`, await of an or-/and-group of flows: all groups expand to ForkHead/MergeHeads);
+    `pre` = statements between the match and the action (assignment, send of an internal event, start of a helper flow, await of a
+    flow that finishes at once); `wrap` = number of wrapper flows around the action (`say2 "x"` -> `await say1 $t` ->
+    `await UtteranceBotAction(script=$t)`), i.e. the number of internal StartFlow hops between the match and the actionable head."""
+    if f["shape"] != "direct" or f.get("trigger"):
+        return f
+    kind = rng.choice(WAITS) if heavy or rng.random() < 0.5 else "plain"
+    pat = f["pat"]
+    fit = all(k in payload and payload[k] == v for k, v in pat.items())
+    w = {"kind": kind}
+    if kind == "or":
+        r = rng.random()
+        if r < 0.4:
+            w["alt"] = None  # another event that never comes
+        else:
+            keys = rng.sample(list(payload), rng.randrange(0, len(payload) + 1))
+            alt = {k: payload[k] for k in keys}
+            if r < 0.55:
+                alt[rng.choice(KEYS)] = 3
+            w["alt"] = alt
+        w["alt_first"] = rng.random() < 0.5
+    elif kind in ("and", "await_and"):
+        # both components are equally specific (same number of mentioned parameters) and fit / do not fit together
+        if fit and len(pat) <= len(payload):
+            keys = rng.sample(list(payload), len(pat))
+            w["alt"] = {k: payload[k] for k in keys}
+        else:
+            w["alt"] = dict(pat)
+    elif kind == "await_or":
+        w["alt_first"] = rng.random() < 0.5
+    if kind != "plain":
+        f["wait"] = w
+    npre = rng.choice([0, 0, 1, 1, 2] if heavy else [0, 0, 0, 1])
+    if npre:
+        f["pre"] = [rng.choice(PRES) for _ in range(npre)]
+    f["wrap"] = rng.choice([0, 1, 1, 2, 3] if heavy else [0, 0, 1, 2])
+    if f["kind"] == "send":
+        f["wrap"] = min(f["wrap"], 2)
+    if f["wrap"] or kind == "when":
+        f["ref"] = False
+        f["stop_after"] = False
+    return f
+
+
+def g_prog_paths(rng):
+    """2..5 flows of (mostly) one loop; every flow reaches its action through a generated path (see add_path), the two sides of a
+    competition with path lengths of their own."""
+    npay = rng.choice([1, 2, 2, 3, 3, 4])
+    payload = {k: rng.choice([1, 2]) for k in rng.sample(KEYS, npay)}
+    n = rng.choice([2, 2, 2, 3, 3, 4, 5])
+    loops = LOOPS[: rng.choice([1, 1, 1, 2])]
+    poolsize = rng.choice([1, 2, 2, 3, 3])
+    flows = []
+    for i in range(n):
+        keys = rng.sample(list(payload), rng.randrange(0, len(payload) + 1))
+        pat = {k: payload[k] for k in keys}
+        if rng.random() < 0.07:
+            pat[rng.choice(KEYS)] = 3
+        shape = rng.choice(["direct"] * 7 + ["await", "helper", "when"])
+        f = {"pat": pat, "prio": rng.choice(PRIOS), "loop": rng.choice(loops), "shape": shape,
+             "kind": "send" if shape == "direct" and rng.random() < 0.15 else "action", "act": rng.randrange(poolsize),
+             "ref": False, "stop_after": False}
+        flows.append(add_path(rng, f, payload, True))
+    case = {"kind": "prog", "payload": payload, "flows": flows, "mode": rng.choice(["start", "start", "activate"]), "followup": False}
+    if rng.random() < 0.3:
+        case["args2"] = True
     return case
 
 
@@ -185,7 +263,7 @@ def gen_cases(rng, tier):
     cases = []
     for _ in range(n_prog):
         r = rng.random()
-        c = g_prog(rng) if r < 0.82 else (g_prog_lowprio(rng) if r < 0.92 else (g_prog_stop2(rng) if r < 0.96 else g_prog_restart(rng)))
+        c = g_prog(rng) if r < 0.57 else (g_prog_paths(rng) if r < 0.82 else (g_prog_lowprio(rng) if r < 0.92 else (g_prog_stop2(rng) if r < 0.96 else g_prog_restart(rng))))
         if tier == "quick":
             c["choices"] = [[rng.randrange(6) for _ in range(6)] for _ in range(3)]
         else:
@@ -223,8 +301,83 @@ def action_stmt(f, i, loopname, second=False):
     return f'start UtteranceBotAction({action_args(f, tag, "script", second)})' + (" as $r" if f["ref"] else "")
 
 
-def render(case):
+def _pat_str(pat):
+    return ", ".join(f"{k}={v}" for k, v in pat.items())
+
+
+def wrappers(case):
+    """The wrapper flows a program uses: say<d> / emit<d> (d = nesting depth); deeper wrappers do something before they delegate."""
+    a2 = ", n=1" if case.get("args2") else ""
     out = []
+    for kind, base, inner in (("action", "say", "await UtteranceBotAction(script=$t" + a2 + ")"), ("send", "emit", "send Foo(x=$t" + a2 + ")")):
+        depth = max([f.get("wrap", 0) for f in case["flows"] if f["kind"] == kind] + [0])
+        for d in range(1, depth + 1):
+            if d == 1:
+                out.append(f"flow {base}1 $t\n  {inner}\n")
+            elif d == 2:
+                out.append(f"flow {base}2 $t\n  $q = 1\n  await {base}1 $t\n")
+            else:
+                out.append(f"flow {base}{d} $t\n  {base}{d - 1} $t\n")
+    return out
+
+
+def path_lines(f, i, loopname, a2, out):
+    """statements between the wait construct and the end of the flow: `pre` statements, then the (wrapped) action"""
+    lines = []
+    for k, p in enumerate(f.get("pre", [])):
+        if p == "assign":
+            lines.append(f"$x{k} = {k}")
+        elif p == "sendint":
+            lines.append(f'send UserIntentLog(flow_id="f{i}", intent="i{k}")')
+        elif p == "stopint":
+            lines.append(f'send StopFlow(flow_id="nosuchflow{k}")')
+        elif p == "starthelper":
+            out.append(f"flow noop{i}x{k}\n  match Never()\n")
+            lines.append(f"start noop{i}x{k}")
+        elif p == "awaitfin":
+            out.append(f"flow qfin{i}x{k}\n  $d = 1\n")
+            lines.append(f"await qfin{i}x{k}")
+    d = f.get("wrap", 0)
+    if d:
+        tag = f"{loopname}-{f['act']}"
+        lines.append(f'{"emit" if f["kind"] == "send" else "say"}{d} "{tag}"')
+    else:
+        lines.append(action_stmt(f, i, loopname, a2))
+    return lines
+
+
+def wait_and_act(f, i, pat, loopname, a2, out):
+    """the body of a `direct` flow from its wait construct to its action (phase 5: groups, `when … or when`, awaits of groups)"""
+    w = f.get("wait") or {"kind": "plain"}
+    act = ["  " + x for x in path_lines(f, i, loopname, a2, out)]
+    k = w["kind"]
+    if k == "plain":
+        return [f"  match E({pat})"] + act
+    if k == "or":
+        alts = [f"E({pat})", "X()" if w.get("alt") is None else f"E({_pat_str(w['alt'])})"]
+        if w.get("alt_first"):
+            alts.reverse()
+        return ["  match " + " or ".join(alts)] + act
+    if k == "and":
+        return [f"  match E({pat}) and E({_pat_str(w['alt'])})"] + act
+    if k == "when":
+        return [f"  when E({pat})"] + ["  " + x for x in act] + ["    match Never()", "  or when X()", "    match Never()"]
+    if k == "await_or":
+        out.append(f"flow u{i}\n  match E({pat})\n")
+        out.append(f"flow v{i}\n  match Never()\n")
+        alts = [f"u{i}", f"v{i}"]
+        if w.get("alt_first"):
+            alts.reverse()
+        return ["  await " + " or ".join(alts)] + act
+    if k == "await_and":
+        out.append(f"flow u{i}\n  match E({pat})\n")
+        out.append(f"flow v{i}\n  match E({_pat_str(w['alt'])})\n")
+        return [f"  await u{i} and v{i}"] + act
+    raise ValueError(k)
+
+
+def render(case):
+    out = wrappers(case)
     a2 = bool(case.get("args2"))
     for i, f in enumerate(case["flows"]):
         loopname = loop_name(f, i)
@@ -247,9 +400,11 @@ def render(case):
             out.append(deco + f"flow o{i}\n  {action_stmt(f, i, loopname, a2)} as $r\n  start f{i}($r)\n  match Never()\n")
             head = f"flow f{i} $r"
             body += prio + [f"  match E({pat})", "  send $r.Start()"]
-        else:
-            trig = f"E2({pat})" if f.get("trigger") == "E2" else ("F()" if f.get("trigger") == "F" else f"E({pat})")
+        elif f.get("trigger") in ("E2", "F"):
+            trig = f"E2({pat})" if f.get("trigger") == "E2" else "F()"
             body += prio + [f"  match {trig}", "  " + action_stmt(f, i, loopname, a2)]
+        else:
+            body += prio + wait_and_act(f, i, pat, loopname, a2, out)
         if f.get("stop_after"):
             body += ["  match F()", "  send $r.Stop()"]
         if f.get("restart_after"):
@@ -316,7 +471,15 @@ class Recorder:
                     from nemoguardrails.colang.v2_x.runtime.flows import Action
 
                     nrefs = sum(1 for v in fs.context.values() if isinstance(v, Action) and v.uid == evd["act"])
-                call["heads"].append({"uid": h.uid, "flow": h.flow_state_uid, "flow_id": fs.flow_id, "loop": fs.loop_id, "scores": list(h.matching_scores),
+                root, anc = None, fs
+                for _ in range(12):  # nearest generated competitor (f<i> / h<i>) this head acts for: the flow itself or an ancestor
+                    if anc is None:
+                        break
+                    if _flow_index(anc.flow_id) is not None:
+                        root = anc.flow_id
+                        break
+                    anc = state.flow_states.get(getattr(anc, "parent_uid", None))
+                call["heads"].append({"uid": h.uid, "flow": h.flow_state_uid, "flow_id": fs.flow_id, "root": root, "loop": fs.loop_id, "scores": list(h.matching_scores),
                                       "ev": evd, "nrefs": nrefs, "catch": bool(h.catch_pattern_failure_label), "pos": h.position,
                                       "start": bool(evd["act"]) and evd["act"] in state.actions and evd["name"] == "Start" + state.actions[evd["act"]].name,
                                       "in_uids": (evd["act"] in fs.action_uids) if evd["act"] else None})
@@ -847,19 +1010,33 @@ def _flow_index(flow_id):
 def spec_vector(case, f):
     """Specificity vector of flow f computed from the patterns (independent of the interpreter)."""
     unmentioned = len(case["payload"]) - len(f["pat"])
+    w = f.get("wait") or {}
+    if w.get("kind") == "or" and isinstance(w.get("alt"), dict) and _pat_fits(case, w["alt"]):
+        # both alternatives of an or-group may match the event: the flow matched as specifically as its best fitting alternative
+        u2 = len(case["payload"]) - len(w["alt"])
+        unmentioned = min(unmentioned, u2) if _pat_fits(case, f["pat"]) else u2
     s = 0.9 ** unmentioned
     p = float(f["prio"]) if f["prio"] else 1.0
-    if f["shape"] == "await":
+    if f["shape"] == "await" or w.get("kind") in ("await_or", "await_and"):
         return [s, p]
     if f["shape"] == "helper":
         return [s * p, 1.0]
     return [s * p]
 
 
+def _pat_fits(case, pat):
+    return all(k in case["payload"] and case["payload"][k] == v for k, v in pat.items())
+
+
 def fits(case, f):
     if f.get("trigger") in ("E2", "F"):
         return False  # waits for another event: the first event must leave it untouched
-    return all(k in case["payload"] and case["payload"][k] == v for k, v in f["pat"].items())
+    w = f.get("wait") or {}
+    if w.get("kind") == "or" and isinstance(w.get("alt"), dict) and _pat_fits(case, w["alt"]):
+        return True
+    if w.get("kind") in ("and", "await_and") and not _pat_fits(case, w["alt"]):
+        return False
+    return _pat_fits(case, f["pat"])
 
 
 def oracle_run(case, run):
@@ -917,7 +1094,7 @@ def oracle_run(case, run):
 
         # "chosen arbitrarily among EXACT ties": two competing flows whose specificity differs never reach the tie-break together
         for call in run["calls"][: step0.get("ncalls", 0)]:
-            hs = [(h, _flow_index(h["flow_id"])) for h in call["heads"] if h["loop"] == loop]
+            hs = [(h, _flow_index(h.get("root") or h["flow_id"])) for h in call["heads"] if h["loop"] == loop]
             for a_, (h1, i1) in enumerate(hs):
                 for h2, i2 in hs[a_ + 1:]:
                     if i1 is None or i2 is None or i1 == i2 or i1 not in comp or i2 not in comp or h1["scores"] != h2["scores"]:
@@ -1072,6 +1249,14 @@ def shrink(case):
             nf = fl[:i] + fl[i + 1:]
             yield dict(case, flows=nf, followup=any(f["stop_after"] for f in nf))
     for i, f in enumerate(fl):
+        for k in ("wait", "pre", "wrap"):
+            if f.get(k):
+                g = {a: b for a, b in f.items() if a != k}
+                yield dict(case, flows=fl[:i] + [g] + fl[i + 1:])
+        if f.get("wrap", 0) > 1:
+            yield dict(case, flows=fl[:i] + [dict(f, wrap=f["wrap"] - 1)] + fl[i + 1:])
+        if len(f.get("pre", [])) > 1:
+            yield dict(case, flows=fl[:i] + [dict(f, pre=f["pre"][1:])] + fl[i + 1:])
         for k, v in (("shape", "direct"), ("prio", None), ("loop", None), ("ref", False), ("stop_after", False)):
             if f[k] != v and not (k == "ref" and f["stop_after"]):
                 g = dict(f, **{k: v})
